@@ -1,4 +1,418 @@
-/-! Model/C13 — executable model (core Lean only; imports only NibabelModel.Basic.* / other Model files). -/
+import NibabelModel.Basic.PySlice
+/-!
+Model/C13 — the image data cache and its aliases (core Lean only).
+
+Models, as they are NOW in /repo:
+
+* `nibabel/dataobj_images.py:196-224`  `DataobjImage.get_data`   (legacy cache `_data_cache`)
+* `nibabel/dataobj_images.py:361-376`  `DataobjImage.get_fdata`  (`_fdata_cache`, dtype test)
+* `nibabel/dataobj_images.py:378-389`  `in_memory`
+* `nibabel/dataobj_images.py:391-417`  `uncache`
+* `nibabel/arrayproxy.py:175-208`      `ArrayProxy.__init__` copies shape/dtype/slope/inter out of the
+                                        header (`None` slope/inter become 1.0 / 0.0)
+* `nibabel/arrayproxy.py:412-459`      `_get_scaled`, `__array__`, `__getitem__` (fresh array per read)
+* `nibabel/volumeutils.py:904-909`     `apply_read_scaling`: (slope, inter) = (1, 0) returns the raw array
+* `nibabel/filebasedimages.py:188`     `self._header = header_class.from_header(header)` (a copy)
+* `nibabel/analyze.py` `AnalyzeImage.__init__`: the image's header copy has slope/inter reset to
+                                        (None, None)
+* `nibabel/analyze.py:961-978`         `from_file_map` gives the proxy its own `header.copy()`
+
+Conventions.  NumPy arrays live in a heap `List Arr`; the identity of an array is its index (ids are
+never reused, exactly as the harness keeps every returned array alive so `id()` is not recycled).
+An array is (dtype, values); values are small integers, exact in int16/float32/float64, so dtype
+conversion keeps them (NumPy element casts are outside the model, see ASSUMPTIONS in c13.py).  The
+images are 3-D of shape (n,1,1); `vals` is the first axis.  "edit" is the attempted in-place `arr += 1`
+(refused by NumPy on a read-only array; the harness swallows exactly that refusal).
+
+External contract (NumPy): `np.asanyarray(a, dtype=d)` is `a` itself when `a` is an ndarray whose
+dtype is `d` (or no dtype is given) and a new array otherwise; `np.asanyarray(proxy, dtype=d)` calls
+`proxy.__array__(d)`, which builds a new array on every call.
+-/
 namespace Nb.C13
+open Nb
+
+/-- the three dtypes of the property: int16, float32, float64 -/
+inductive DT | i2 | f4 | f8
+  deriving DecidableEq, Repr, Inhabited
+
+structure Arr where
+  dt : DT
+  vals : List Int
+  ro : Bool := false      -- `not arr.flags.writeable`
+  deriving DecidableEq, Repr
+
+/-- value of a dangling heap reference (never reached from a well-formed state) -/
+def Arr.dflt : Arr := ⟨.f8, [], false⟩
+
+/-- attempted in-place `arr += 1`: NumPy refuses (ValueError) on a read-only array -/
+def bump (a : Arr) : Arr := if a.ro then a else { a with vals := a.vals.map (· + 1) }
+
+/-- the header fields the property mentions: `get_slope_inter()` (`none` = `(None, None)`),
+    first axis length of `get_data_shape()`, `get_data_dtype()` -/
+structure Hdr where
+  scale : Option (Int × Int)
+  n : Nat
+  dt : DT
+  deriving DecidableEq, Repr
+
+/-- the parameters an `ArrayProxy` copies out of the header at construction (arrayproxy.py:175-208);
+    the shape is the length of the file's value list -/
+structure Par where
+  dt : DT
+  slope : Int
+  inter : Int
+  deriving DecidableEq, Repr
+
+/-- arrayproxy.py:177-184: `1.0 if slope is None else slope`, `0.0 if inter is None else inter` -/
+def Par.ofHdr (h : Hdr) : Par :=
+  match h.scale with
+  | some (s, i) => ⟨h.dt, s, i⟩
+  | none => ⟨h.dt, 1, 0⟩
+
+/-- `raw * slope + inter` (`apply_read_scaling`) -/
+def Par.scaled (p : Par) (raw : List Int) : List Int := raw.map (fun v => v * p.slope + p.inter)
+
+/-- dtype of an unconverted read: the storage dtype when (slope, inter) = (1, 0)
+    (volumeutils.py:908), float64 otherwise (slope/inter are Python floats) -/
+def Par.outDt (p : Par) : DT := if p.slope = 1 ∧ p.inter = 0 then p.dt else .f8
+
+/-- fileslice.py:118-125 (`canonical_slicers`): the only slices recognised as "the whole axis" -/
+def isFullSlice (sl : PySlice) (n : Nat) : Bool :=
+  (sl.start == none && sl.stop == none && sl.step == none) ||
+  (sl.stop == some (n : Int) && (sl.start == none || sl.start == some 0) &&
+    (sl.step == none || sl.step == some 1))
+
+/-- `proxy[sl]` (arrayproxy.py:387-410, 457-459): a whole-axis slice goes through `array_from_file`
+    (writeable); any other slice goes through `fileslice`, whose result wraps an immutable `bytes`
+    buffer and is read-only unless scaling arithmetic produced a new array -/
+def Par.sliceRO (p : Par) (sl : PySlice) (n : Nat) : Bool :=
+  decide (p.slope = 1 ∧ p.inter = 0) && !isFullSlice sl n
+
+/-- what the image's `dataobj` is: an ndarray (array image; `own` = its heap id) or an array proxy
+    (proxy image; the file's raw values and the frozen parameters) -/
+inductive Img
+  | array (own : Nat)
+  | proxy (raw : List Int) (par : Par)
+  deriving DecidableEq, Repr
+
+inductive Caching | fill | unchanged | other
+  deriving DecidableEq, Repr
+
+inductive HTarget | img | orig
+  deriving DecidableEq, Repr
+
+inductive HEdit
+  | scale (s i : Int)     -- `hdr.set_slope_inter(s, i)`
+  | shape (n : Nat)       -- `hdr.set_data_shape((n, 1, 1))`
+  | dtype (d : DT)        -- `hdr.set_data_dtype(d)`
+  deriving DecidableEq, Repr
+
+def HEdit.apply (e : HEdit) (h : Hdr) : Hdr :=
+  match e with
+  | .scale s i => { h with scale := some (s, i) }
+  | .shape n => { h with n := n }
+  | .dtype d => { h with dt := d }
+
+inductive Op
+  | getFdata (c : Caching) (d : DT)   -- `img.get_fdata(caching=c, dtype=d)`
+  | getData (c : Caching)             -- `img.get_data(caching=c)` (deprecated, still present)
+  | asarray                           -- `np.asarray(img.dataobj)`
+  | slice (sl : PySlice)              -- `img.dataobj[sl]` (proxy images)
+  | uncache                           -- `img.uncache()`
+  | edit (k : Nat)                    -- `arr_k += 1` on the array with id `k`
+  | editLast                          -- `+= 1` on the most recently returned array
+  | inMemory                          -- `img.in_memory`
+  | hdr (t : HTarget) (e : HEdit)     -- edit `img.header` / the header object given to the constructor
+  deriving DecidableEq, Repr
+
+inductive Res
+  | arr (id : Nat) (a : Arr)     -- returned array: identity, dtype, values
+  | unit                         -- nothing returned
+  | valueError
+  | noArr                        -- edit of an id that was never handed out
+  | hdrs (img orig : Hdr)        -- both headers after a header edit
+  | notApplicable                -- `dataobj[slice]` on an array image is outside the model
+  deriving DecidableEq, Repr
+
+/-- observable of one step: the result and `img.in_memory` read right after the step -/
+structure Out where
+  res : Res
+  inMem : Bool
+  deriving DecidableEq, Repr
+
+structure State where
+  img : Img
+  heap : List Arr
+  fcache : Option Nat      -- `_fdata_cache`
+  dcache : Option Nat      -- `_data_cache`
+  last : Option Nat        -- most recently returned array (harness bookkeeping for `editLast`)
+  imgHdr : Hdr
+  origHdr : Hdr
+  deriving DecidableEq, Repr
+
+def State.get (s : State) (id : Nat) : Arr := (s.heap[id]?).getD Arr.dflt
+
+/-- ids in use are below the heap size -/
+structure State.WF (s : State) : Prop where
+  own : ∀ o, s.img = .array o → o < s.heap.length
+  fcache : ∀ i, s.fcache = some i → i < s.heap.length
+  dcache : ∀ i, s.dcache = some i → i < s.heap.length
+  last : ∀ i, s.last = some i → i < s.heap.length
+
+/-- dataobj_images.py:385-389 -/
+def State.inMemory (s : State) : Bool :=
+  (match s.img with | .array _ => true | .proxy _ _ => false) || s.fcache.isSome || s.dcache.isSome
+
+/-- a new ndarray object -/
+def alloc (s : State) (a : Arr) : State × Nat :=
+  ({ s with heap := s.heap ++ [a] }, s.heap.length)
+
+/-- `np.asanyarray(self._dataobj, dtype=d)`; `d = none`: no dtype argument -/
+def readObj (s : State) (d : Option DT) : State × Nat :=
+  match s.img with
+  | .array own =>
+      match d with
+      | none => (s, own)
+      | some d => if (s.get own).dt = d then (s, own) else alloc s ⟨d, (s.get own).vals, false⟩
+  | .proxy raw p => alloc s ⟨d.getD p.outDt, p.scaled raw, false⟩
+
+def retArr (s : State) (id : Nat) : State × Out :=
+  let s' := { s with last := some id }
+  (s', ⟨.arr id (s.get id), s'.inMemory⟩)
+
+def retRes (s : State) (r : Res) : State × Out := (s, ⟨r, s.inMemory⟩)
+
+/-- dataobj_images.py:367-369: cache present and of the requested dtype -/
+def fhit (s : State) (d : DT) : Option Nat :=
+  match s.fcache with
+  | some id => if (s.get id).dt = d then some id else none
+  | none => none
+
+def editAt (s : State) (k : Nat) : State × Out :=
+  if k < s.heap.length then retRes { s with heap := s.heap.modify k bump } .unit
+  else retRes s .noArr
+
+def step (s : State) : Op → State × Out
+  | .getFdata c d =>
+      -- :361-365 both argument checks raise ValueError before anything else happens
+      if c = .other ∨ d = .i2 then retRes s .valueError else
+      match fhit s d with
+      | some id => retArr s id                                         -- :367-369
+      | none =>
+          let r := readObj s (some d)                                  -- :373
+          retArr (if c = .fill then { r.1 with fcache := some r.2 } else r.1) r.2   -- :374-376
+  | .getData c =>
+      if c = .other then retRes s .valueError else                     -- :217-218
+      match s.dcache with
+      | some id => retArr s id                                         -- :219-220
+      | none =>
+          let r := readObj s none                                      -- :221
+          retArr (if c = .fill then { r.1 with dcache := some r.2 } else r.1) r.2   -- :222-224
+  | .asarray =>
+      let r := readObj s none
+      retArr r.1 r.2
+  | .slice sl =>
+      match s.img with
+      | .array _ => retRes s .notApplicable
+      | .proxy raw p =>
+          if sl.stepVal = 0 then retRes s .valueError else
+          let r := alloc s ⟨p.outDt, sl.apply (p.scaled raw), p.sliceRO sl raw.length⟩
+          retArr r.1 r.2
+  | .uncache => retRes { s with fcache := none, dcache := none } .unit  -- :416-417
+  | .edit k => editAt s k
+  | .editLast =>
+      match s.last with
+      | some k => editAt s k
+      | none => retRes s .noArr
+  | .inMemory => retRes s .unit
+  | .hdr t e =>
+      let s' := match t with
+        | .img => { s with imgHdr := e.apply s.imgHdr }
+        | .orig => { s with origHdr := e.apply s.origHdr }
+      retRes s' (.hdrs s'.imgHdr s'.origHdr)
+
+def run (s : State) : List Op → State
+  | [] => s
+  | op :: ops => run (step s op).1 ops
+
+def trace (s : State) : List Op → List Out
+  | [] => []
+  | op :: ops => (step s op).2 :: trace (step s op).1 ops
+
+/-- `AnalyzeImage.__init__`: the image keeps a *copy* of the header with slope/inter reset -/
+def imgHdrOf (h : Hdr) : Hdr := { h with scale := none }
+
+/-- `Nifti1Image(arr, affine, hdr)`: the array is heap object 0 -/
+def initArray (a : Arr) (h : Hdr) : State :=
+  { img := .array 0, heap := [a], fcache := none, dcache := none, last := none,
+    imgHdr := imgHdrOf h, origHdr := h }
+
+/-- proxy image built from header `h` over a file with values `raw`
+    (`from_file_map`, or `Nifti1Image(ArrayProxy(f, h), None, h)`) -/
+def initProxy (raw : List Int) (h : Hdr) : State :=
+  { img := .proxy raw (Par.ofHdr h), heap := [], fcache := none, dcache := none, last := none,
+    imgHdr := imgHdrOf h, origHdr := h }
+
+/-! ## The documented model (doc/source/images_and_memory.rst, get_fdata docstring)
+
+No heap: the image is its data source (`own` array or file) plus at most one cached array per cache.
+Arrays carry their identity; `next` is the identity the next new array gets. -/
+
+inductive SImg
+  | array (own : Nat × Arr)
+  | proxy (raw : List Int) (par : Par)
+  deriving DecidableEq, Repr
+
+structure Spec where
+  img : SImg
+  fcache : Option (Nat × Arr)
+  dcache : Option (Nat × Arr)
+  next : Nat
+  last : Option Nat
+  imgHdr : Hdr
+  origHdr : Hdr
+  deriving DecidableEq, Repr
+
+namespace Spec
+
+def inMemory (t : Spec) : Bool :=
+  (match t.img with | .array _ => true | .proxy _ _ => false) || t.fcache.isSome || t.dcache.isSome
+
+/-- read the data source as dtype `d`: an array image hands out its own array when the dtype already
+    matches, everything else is a new array holding the source's *current* values -/
+def read (t : Spec) (d : Option DT) : Spec × (Nat × Arr) :=
+  match t.img with
+  | .array own =>
+      match d with
+      | none => (t, own)
+      | some d => if own.2.dt = d then (t, own)
+                  else ({ t with next := t.next + 1 }, (t.next, ⟨d, own.2.vals, false⟩))
+  | .proxy raw p => ({ t with next := t.next + 1 }, (t.next, ⟨d.getD p.outDt, p.scaled raw, false⟩))
+
+def ret (t : Spec) (r : Nat × Arr) : Spec × Out :=
+  let t' := { t with last := some r.1 }
+  (t', ⟨.arr r.1 r.2, t'.inMemory⟩)
+
+def retRes (t : Spec) (r : Res) : Spec × Out := (t, ⟨r, t.inMemory⟩)
+
+def bumpIf (k : Nat) (r : Nat × Arr) : Nat × Arr := if r.1 = k then (r.1, bump r.2) else r
+
+def bumpImg (k : Nat) : SImg → SImg
+  | .array own => .array (bumpIf k own)
+  | .proxy r p => .proxy r p
+
+/-- an in-place edit of array `k` is seen by the image exactly when `k` is its own array or a cached
+    array -/
+def editAt (t : Spec) (k : Nat) : Spec × Out :=
+  if k < t.next then
+    retRes { t with
+      img := bumpImg k t.img,
+      fcache := t.fcache.map (bumpIf k),
+      dcache := t.dcache.map (bumpIf k) } .unit
+  else retRes t .noArr
+
+def step (t : Spec) : Op → Spec × Out
+  | .getFdata c d =>
+      if c = .other ∨ d = .i2 then retRes t .valueError else
+      match t.fcache with
+      | some r =>
+          if r.2.dt = d then ret t r
+          else
+            let x := read t (some d)
+            ret (if c = .fill then { x.1 with fcache := some x.2 } else x.1) x.2
+      | none =>
+          let x := read t (some d)
+          ret (if c = .fill then { x.1 with fcache := some x.2 } else x.1) x.2
+  | .getData c =>
+      if c = .other then retRes t .valueError else
+      match t.dcache with
+      | some r => ret t r
+      | none =>
+          let x := read t none
+          ret (if c = .fill then { x.1 with dcache := some x.2 } else x.1) x.2
+  | .asarray => let x := read t none; ret x.1 x.2
+  | .slice sl =>
+      match t.img with
+      | .array _ => retRes t .notApplicable
+      | .proxy raw p =>
+          if sl.stepVal = 0 then retRes t .valueError else
+          ret { t with next := t.next + 1 } (t.next, ⟨p.outDt, sl.apply (p.scaled raw), p.sliceRO sl raw.length⟩)
+  | .uncache => retRes { t with fcache := none, dcache := none } .unit
+  | .edit k => editAt t k
+  | .editLast =>
+      match t.last with
+      | some k => editAt t k
+      | none => retRes t .noArr
+  | .inMemory => retRes t .unit
+  | .hdr tg e =>
+      let t' := match tg with
+        | .img => { t with imgHdr := e.apply t.imgHdr }
+        | .orig => { t with origHdr := e.apply t.origHdr }
+      retRes t' (.hdrs t'.imgHdr t'.origHdr)
+
+def run (t : Spec) : List Op → Spec
+  | [] => t
+  | op :: ops => run (step t op).1 ops
+
+def trace (t : Spec) : List Op → List Out
+  | [] => []
+  | op :: ops => (step t op).2 :: trace (step t op).1 ops
+
+end Spec
+
+/-- abstraction map: forget every array the image no longer refers to -/
+def abs (s : State) : Spec :=
+  { img := (match s.img with
+      | .array own => .array (own, s.get own)
+      | .proxy r p => .proxy r p),
+    fcache := s.fcache.map (fun i => (i, s.get i)),
+    dcache := s.dcache.map (fun i => (i, s.get i)),
+    next := s.heap.length,
+    last := s.last,
+    imgHdr := s.imgHdr,
+    origHdr := s.origHdr }
+
+/-! ## Vocabulary used by the theorems (Props/C13.lean) -/
+
+def Op.isHdr : Op → Bool
+  | .hdr _ _ => true
+  | _ => false
+
+/-- the outputs of the non-header ops of a run (header ops are executed, their outputs dropped) -/
+def dataTrace (s : State) : List Op → List Out
+  | [] => []
+  | op :: ops =>
+      if op.isHdr then dataTrace (step s op).1 ops
+      else (step s op).2 :: dataTrace (step s op).1 ops
+
+def State.withHdrs (s : State) (a b : Hdr) : State := { s with imgHdr := a, origHdr := b }
+
+/-- ops after which a cache holding an array of dtype `d` is still that same array: everything except
+    `uncache` and a (valid) filling read of another float dtype -/
+def keepsCache (d : DT) : Op → Bool
+  | .uncache => false
+  | .getFdata .fill d' => d' == d || d' == .i2
+  | _ => true
+
+/-- what an op does to "some cache is filled": `some true` = a valid filling read, `some false` =
+    `uncache`, `none` = no effect -/
+def cacheEvent : Op → Option Bool
+  | .getFdata .fill d => if d = .i2 then none else some true
+  | .getData .fill => some true
+  | .uncache => some false
+  | _ => none
+
+/-- is a cache filled after the history `ops`, starting from `b` -/
+def filled (b : Bool) : List Op → Bool
+  | [] => b
+  | op :: ops => filled ((cacheEvent op).getD b) ops
+
+def Img.isArray : Img → Bool
+  | .array _ => true
+  | .proxy _ _ => false
+
+/-- `k` is an array the image no longer (or never) refers to -/
+def State.Garbage (s : State) (k : Nat) : Prop :=
+  s.img ≠ .array k ∧ s.fcache ≠ some k ∧ s.dcache ≠ some k
 
 end Nb.C13
